@@ -11,10 +11,13 @@ import SieveModel.Model.ToList
 import SieveModel.Model.Factory
 import SieveModel.Model.Readback
 import SieveModel.Model.Rename
+import SieveModel.Spec.FrozenTable
 /-! Line-protocol driver: one request per line on stdin, one answer per line on stdout. -/
 
 structure DState where
   table : Table := Generated.builtinTable
+  /-- the table the independent recogniser judges with: the frozen one (plus whatever a test registers on purpose) -/
+  spec : Table := Spec.frozenTable
   client : Client := { r := { buf := [], net := { stream := [], sched := [] } } }
   fs : FS := []
   matchExt : List (Bytes × Bytes) := []
@@ -264,13 +267,18 @@ def answer (st : DState) (line : String) : DState × String :=
     (st, match Rfc5804.command (hexArg rest) with
       | some (verb, as, r) => if r.isEmpty then s!"ok {hexOr verb} " ++ ",".intercalate (as.map showArg) else "trailing"
       | none => "bad")
-  | "wf" :: rest => (st, (Spec.wfBytes st.table (hexArg rest)).name)
+  | "wf" :: rest => (st, (Spec.wfBytes st.spec (hexArg rest)).name)
   | ["tolist", h, u] =>
     -- tools.to_list on a rendered list (bytes of its UTF-8 form): pieces, hex, comma-separated
     (st, ",".intercalate ((ToList.toList (B.ofHex h) (u == "1")).map hexOr))
   | ["tolist", u] => (st, ",".intercalate ((ToList.toList [] (u == "1")).map hexOr))
-  | ["table-reset"] => ({ st with table := Generated.builtinTable }, "ok")
-  | ["table-clear"] => ({ st with table := [] }, "ok")
+  | ["table-reset"] => ({ st with table := Generated.builtinTable, spec := Spec.frozenTable }, "ok")
+  | ["table-clear"] => ({ st with table := [], spec := [] }, "ok")
+  | ["table-live-clear"] => ({ st with table := [] }, "ok")
+  | "table-live-add" :: fs =>
+    match TableCodec.defOf fs with
+    | some d => ({ st with table := st.table.register d }, "ok")
+    | none => (st, "bad-def")
   | ["table-safe"] =>
     -- the hypothesis of C02.parse_always_verdict on the table held by the driver: names of the definitions that fail it
     (st, match (st.table.filter (fun d => !Safe.cmdSafe d)).map (fun d => B.toHex d.name) with
@@ -278,7 +286,7 @@ def answer (st : DState) (line : String) : DState × String :=
       | l => "notsafe " ++ ",".intercalate l)
   | "table-add" :: fs =>
     match TableCodec.defOf fs with
-    | some d => ({ st with table := st.table.register d }, "ok")
+    | some d => ({ st with table := st.table.register d, spec := st.spec.register d }, "ok")
     | none => (st, "bad-def")
   | "fcfg" :: fs => ({ st with matchExt := pairList (kv fs "match"), argExt := pairList (kv fs "arg") }, "ok")
   | "fb" :: fs => (st, factoryOp st fs)
